@@ -174,7 +174,14 @@ def check_c11(pid, tier, seed, replay):
     quick = tier == "quick"
     rng = random.Random(seed)
     cases, n = mc_dbg(ck, 3 if quick else 4, "{1, 2, 3, 4, 5, 6, 7, 8}")
-    validate_sessions(ck, run_cli("dbg", cases, "R"), 14, describe_dbg, "R", "dbg")
+    all_lines = [l for l in open(cases).read().split("\n") if l.strip()]
+    rng.shuffle(all_lines)
+    for k in range(0, len(all_lines), 4000):
+        part = os.path.join(os.path.dirname(cases), "part.json")
+        open(part, "w").write("\n".join(all_lines[k:k + 4000]) + "\n")
+        validate_sessions(ck, run_cli("dbg", part, "R"), 14, describe_dbg, "R", "dbg")
+        if ck.enough():
+            return ck.finish()
     ck.cov["exhaustive"] = True
     # one command deeper on the two shortest looping programs (a back edge to the first command)
     if quick:
@@ -263,6 +270,8 @@ def check_c12(pid, tier, seed, replay):
         sub = os.path.join(os.path.dirname(cases), "pick.json")
         open(sub, "w").write("\n".join(lines) + "\n")
         validate_sessions(ck, run_cli("repl", sub, "R" + slice_), 14, describe_repl, "R-" + slice_, "repl")
+        if ck.enough():
+            return ck.finish()
         ck.sample(describe_repl(json.loads(lines[1]) | {"panicked": False}).split(":: ", 1)[1])
     tc = []
     fixed = [M.one_to_n(8), M.example_prog("hello_world"), M.example_prog("1_to_8"),
